@@ -41,7 +41,8 @@ Theorem C05_png : forall inflate w h depth rest crc ancs endlen endty body fuel,
 Proof. exact png_meta. Qed.
 Print Assumptions C05_png.
 
-(* JPEG: SOI, any length-carrying segments other than SOF0/SOF2/APP2, a baseline (C0) or progressive
+(* JPEG: SOI, any length-carrying segments other than SOF0/SOF2/APP2 and any bare markers (RST0-7, a
+   repeated SOI), a baseline (C0) or progressive
    (C2) frame header with at least the five data bytes the loader reads, any further such segments,
    then SOS: width, height and precision are the frame header's, and the loader stops after SOS *)
 Theorem C05_jpeg : forall inflate pre post t p h1 h2 w1 w2 more sos body fuel,
